@@ -71,6 +71,9 @@ func ruleC09(c *Check) {
 	c.callbackRules("C09")
 	c.moduleServiceRunning("C09.7")
 	c.expiredBatchBinding("C09.8")
+	// a consumer that cannot pay is paused: the filter judges providers by availability, response time and price against
+	// the fee cap — not by the consumer's balance, which would turn the pause into a silent skip
+	c.filterRules("C09.9")
 }
 
 func ruleC10(c *Check) {
@@ -83,7 +86,7 @@ func ruleC10(c *Check) {
 	c.queueDeleters("C10")
 	c.heightSkeletons("C10.2")
 	c.paramGettersExact("C10.3", "KeyMaxRequestTimeout")
-	c.newBatchRules("C10", map[string]bool{"issue-without-expiry": true})
+	c.newBatchRules("C10", map[string]bool{"issue-without-expiry": true, "expiry-without-batch": true})
 	c.keyGrammar("C10.6", map[string]bool{"0x09": true, "0x10": true, "0x11": true, "0x12": true})
 	c.newBatchDequeue("C10")
 	c.contextDeleters("C10")
@@ -94,7 +97,7 @@ func ruleC10(c *Check) {
 func ruleC11(c *Check) {
 	c.queuePairs("C11")
 	c.newBatchDequeue("C11")
-	c.newBatchRules("C11", map[string]bool{"running-no-successor": true, "issue-without-expiry": true})
+	c.newBatchRules("C11", map[string]bool{"running-no-successor": true, "issue-without-expiry": true, "expiry-without-batch": true})
 	c.expiredBatchRules("C11", map[string]bool{"dequeue": true, "continuation": true, "delete-after-dequeue": true, "dequeue-before-enqueue": true})
 	c.startRules("C11")
 	c.heightSkeletons("C11.5")
@@ -147,6 +150,8 @@ func ruleC16(c *Check) {
 	c.contextDeleters("C16")
 	c.queueDeleters("C16")
 	c.keyGrammar("C16.2", map[string]bool{"0x13": true, "0x15": true, "0x16": true, "0x14": true})
+	// the by-binding marker is filed under the provider the request is addressed to (the one deleted on response / expiry)
+	c.issueLoopOverList("C16.6")
 }
 
 // respondNoHeight (C08.5): acceptance depends on the marker alone.
@@ -458,14 +463,29 @@ func (c *Check) callbackRules(prefix string) {
 			}
 		}
 		mod := false
-		for _, fa := range pa.AllFacts() {
+		af := pa.AllFacts()
+		var modT *Term
+		for _, fa := range af {
 			if !fa.Neg && fa.T.Op == "nonempty" && strings.HasSuffix(fa.T.A[0].Op, ".RequestContext.ModuleName") {
 				mod = true
 			}
+			fa.T.Walk(func(t *Term) bool {
+				if t.Op == "nonempty" && len(t.A) == 1 && strings.HasSuffix(t.A[0].Op, ".RequestContext.ModuleName") {
+					modT = t
+				}
+				return true
+			})
 		}
 		want := 0
 		if mod {
 			want = 1
+		}
+		// the module's presence is mentioned only inside a compound condition that the path has refuted as a whole
+		// ("module-owned and repeated"): the callback is skipped although the context may well be module-owned
+		if !mod && modT != nil && !af.Holds(modT, false) && pa.OK() {
+			c.req(n == 1, prefix+".callback.state", unitConstruct(pff, "state-callback:module=undetermined"), pa.RetPos,
+				"a path that has not established that the context has no owning module invokes the state callback (it is skipped under a further condition)")
+			continue
 		}
 		c.req(n == want, prefix+".callback.state", unitConstruct(pff, fmt.Sprintf("state-callback:module=%v", mod)), pa.RetPos, fmt.Sprintf("pausing for insufficient balance invokes the state callback %d time(s) (module context=%v)", n, mod))
 		// the paused state is stored before the owning module is told about it (the callback may read or change the context)
